@@ -329,7 +329,13 @@ def rule_status(R):
     _r(R)
 
 
+def rule_reason(R):
+    """the CONNACK is accepted, the session marked present and replay started only on a success code; which codes are successes is ReasonCode::success (MQTT 5 2.4: below 0x80) -- shared clause"""
+    roles.clause_reason_predicates(R, "reason")
+
+
 def run(R):
+    R.rule("reason", rule_reason)
     R.rule("status", rule_status)
     R.rule("wire", rule_wire)
     R.rule("mark", rule_mark)
